@@ -193,7 +193,7 @@ def scratch_root():
     byte-identical across processes.  Removed at exit."""
     global _SCRATCH
     if _SCRATCH is None or _SCRATCH[0] != os.getpid():
-        base = "/dev/shm" if os.path.isdir("/dev/shm") and os.access("/dev/shm", os.W_OK) else _real_tempfile.gettempdir()
+        base = os.environ.get("VERIF_SCRATCH") or ("/dev/shm" if os.path.isdir("/dev/shm") and os.access("/dev/shm", os.W_OK) else _real_tempfile.gettempdir())
         d = _real_tempfile.mkdtemp(prefix="csverif-%d-" % os.getpid(), dir=base)
         _SCRATCH = (os.getpid(), d)
         os.chdir(d)
